@@ -21,3 +21,14 @@ func verifNCPU(ncpu int) int {
 	}
 	return ncpu
 }
+
+// verification hook H1b: the chunk size GetMerkleRoot actually used on its last parallel run is
+// observable, so that the harness can check it against the specification's assumption (a power of
+// two) instead of inferring it.
+var verifLastStep int32
+
+func verifObserveStep(step int) { atomic.StoreInt32(&verifLastStep, int32(step)) }
+
+// VerifLastStep returns the chunk size of the last parallel GetMerkleRoot run and clears it
+// (0: the last call took the sequential path).
+func VerifLastStep() int { return int(atomic.SwapInt32(&verifLastStep, 0)) }
